@@ -129,7 +129,39 @@ func renderNode(sb *strings.Builder, fset *token.FileSet, n ast.Node, d *duality
 	case *ast.CallExpr:
 		renderNode(sb, fset, x.Fun, d)
 		sb.WriteString("(")
-		for i, a := range x.Args {
+		args := x.Args
+		if d != nil {
+			// a helper whose parameters are duals of each other (newNode(value, prev, next)): the mirror image passes the
+			// arguments in the mirrored positions
+			fname := ""
+			switch f := x.Fun.(type) {
+			case *ast.Ident:
+				fname = f.Name
+			case *ast.SelectorExpr:
+				fname = f.Sel.Name
+			case *ast.IndexExpr:
+				if id, ok := f.X.(*ast.Ident); ok {
+					fname = id.Name
+				}
+			}
+			if ps, ok := astFuncParams[fname]; ok && len(ps) == len(args) {
+				perm := make([]ast.Expr, len(args))
+				copy(perm, args)
+				for i, pi := range ps {
+					dn := d.ident(pi)
+					if dn == pi {
+						continue
+					}
+					for j, pj := range ps {
+						if pj == dn {
+							perm[i] = args[j]
+						}
+					}
+				}
+				args = perm
+			}
+		}
+		for i, a := range args {
 			if i > 0 {
 				sb.WriteString(", ")
 			}
@@ -307,18 +339,37 @@ func multisetDiff(a, b []string) (onlyA, onlyB []string) {
 // astIdentAlias: identifier translation applied while rendering source (set per package by useAstAliases).
 var astIdentAlias map[string]string
 
+// astFuncParams: parameter names of the unexported functions / methods of the package being rendered (by simple name).
+var astFuncParams map[string][]string
+
 func useAstAliases(c *Ctx, fnKey string) {
 	astIdentAlias = nil
-	if curLayout == nil {
-		return
-	}
+	astFuncParams = map[string][]string{}
 	best := ""
 	for rel := range c.Pkgs {
 		if strings.HasPrefix(fnKey, rel+".") && len(rel) > len(best) {
 			best = rel
 		}
 	}
-	astIdentAlias = curLayout.idents[best]
+	for k, fd := range c.decls {
+		if !strings.HasPrefix(k, best+".") || fd.Type.Params == nil || ast.IsExported(fd.Name.Name) {
+			continue
+		}
+		var ps []string
+		for _, f := range fd.Type.Params.List {
+			for _, n := range f.Names {
+				ps = append(ps, n.Name)
+			}
+		}
+		if _, dup := astFuncParams[fd.Name.Name]; dup {
+			astFuncParams[fd.Name.Name] = nil // ambiguous simple name
+		} else {
+			astFuncParams[fd.Name.Name] = ps
+		}
+	}
+	if curLayout != nil {
+		astIdentAlias = curLayout.idents[best]
+	}
 }
 
 // mirrorPair checks that dual(B) == A as multisets of atoms.
